@@ -44,6 +44,16 @@ def M(name):
     return common.module('stdnum.' + name)
 
 
+class _nofreeze:
+    """no consumer of a registry reads the clock; nothing is frozen (see the note in c12 about gs1_128)"""
+
+    def __enter__(self):
+        return self
+
+    def __exit__(self, *a):
+        return False
+
+
 # ----------------------------------------------------------------------------- independent lookup model
 
 class Index:
@@ -129,7 +139,7 @@ class Ctx:
         if site is None:
             site = '%s:%s:%s' % (self.relfile, function, relation)
         extra.setdefault('check', 'consumer')
-        case = E.mkcase(module, function, args, observed, expected, site, relation, today=TODAY, dat=self.name, **extra)
+        case = E.mkcase(module, function, args, observed, expected, site, relation, dat=self.name, **extra)
         self.found.append(case)
         if self.col is not None:
             self.col.fail(case)
@@ -479,8 +489,8 @@ def consumer_oui(ctx, model, e, rng):
                      'oui-entry-without-organisation', entry=e.label(), check='consumer')
             return
         ctx.expect('stdnum.mac', 'get_manufacturer', (w,), e.props['o'].replace('%', '"'), 'manufacturer-entry-returned', e.label())
-        ctx.expect('stdnum.mac', 'get_oui', (w,), prefix, 'manufacturer-entry-returned', e.label())
         if e.line % 8 == 0:
+            ctx.expect('stdnum.mac', 'get_oui', (w,), prefix, 'manufacturer-entry-returned', e.label())
             ctx.expect('stdnum.mac', 'get_iab', (w,), rest, 'manufacturer-entry-returned', e.label())
             ctx.expect('stdnum.mac', 'validate', (w,), w, 'manufacturer-entry-validates', e.label(), kwargs={'validate_manufacturer': True})
 
@@ -578,7 +588,7 @@ def _worker(task):
         check_grammar(ctx, problems)
         col.tick('grammar:' + name, n=nlines)
     consumer = CONSUMERS.get(name)
-    with common.frozen_today(TODAY):
+    with _nofreeze():
         for i in list(range(0, len(allentries), stride))[start::step]:
             e = allentries[i]
             rng = random.Random('%s/%s/%d' % (seed, name, i))
@@ -625,7 +635,7 @@ def replay(case):
     model = Model(top)
     if name == 'gs1_ai':
         ctx.ais = _gs1.load_ais(common.REPO)[0]
-    with common.frozen_today(TODAY):
+    with _nofreeze():
         if case.get('check') == 'grammar':
             check_grammar(ctx, problems)
             found = [c for c in ctx.found if c.get('lineno') == case.get('lineno')]
